@@ -51,7 +51,12 @@ SPEC = {
             "5 label keys (one differing in case only); every op carries a failure mask (bit i = the i-th store write of "
             "the op fails), non-zero for 1 op in 4; 1 sequence in 8 also registers stores born offline / tombstone / "
             "destroyed (malformed stream); non-trivial = some store reaches tombstone and some op is rejected or hits an "
-            "injected failure; distinct = distinct op sequence",
+            "injected failure; distinct = distinct op sequence. Gated stream (-ngate): 2-4 stores, then 3-6 "
+            "two-operation schedules: `park <op1>` holds op1's first store write (after it is logged, before it takes "
+            "effect, i.e. inside its locked section), `<op2>` (mostly on the same store) is started from a second "
+            "goroutine and must be observed `blocked` on the cluster lock, `release` lets the write go on and reports "
+            "both results, or `parked` when op2 reaches a write of its own (then a second `release`); op1/op2 out of "
+            "check / put / remove / up / labels / weight / bury / rmtomb (+ ghb / gput on the server)",
     "model_text": "PdModel/Model/StoreFsm.lean: putStoreImpl (id / version compatibility / address loop / label merge / "
                   "strict label check / save-then-publish), PutStore + cluster-version bump, gRPC PutStore and "
                   "StoreHeartbeat (tombstone test, TiFlash test, persist-on-first-heartbeat), UpdateStoreLabels, "
@@ -73,9 +78,11 @@ SPEC = {
                   "weights are fixed point). Sequential histories only (the property's quantifier). Heartbeats are assumed "
                   "to arrive less than storePersistInterval apart (first heartbeat of a store object saves, later ones do "
                   "not). bury_only_empty is asserted for checkStores, not for the direct hook call of buryStore (which "
-                  "has no region test of its own and only checkStores calls). Two defects were found and repaired in /repo "
-                  "(fixes/F22-merge-labels-copy.diff, fixes/F23-filter-unhealthy-store-nil.diff); the model follows the "
-                  "repaired code.",
+                  "has no region test of its own and only checkStores calls). One defect was found and repaired in /repo "
+                  "(fixes/F22-merge-labels-copy.diff); the model follows the repaired code. The gated stream steps "
+                  "outside the sequential quantifier: there the model serialises the two operations in the order in "
+                  "which the cluster lock admits them (unlocked look-ups of UpdateStoreLabels / checkStores keep what "
+                  "they saw), and the monitor judges every observed served/stored state.",
     "technique": "Lean 4 inductive invariant over op histories + differential correspondence + verified monitor",
     "assumptions": [
         "histories are sequential (one operation at a time), as the property quantifies",
